@@ -321,8 +321,16 @@ pub enum Slot {
     Lams(&'static [&'static str]),
 }
 
+/// extra members for the crash oracle (C05): no expected value is needed, so numbers that
+/// the reference evaluator leaves open are welcome
+pub const WILD_EXTRA: &[&str] = &["18446744073709551615", "-9223372036854775808", "9223372036854775807", "1e18", "-1e18", "1e308", "-1e308", "4294967295", "2147483648", "0.9999999999999999", "1e-320"];
+
 /// the enumerable positions of signature `si` (None = not enumerated here)
 pub fn slots(si: usize) -> Option<Vec<Slot>> {
+    slots_with(si, false)
+}
+
+pub fn slots_with(si: usize, wild: bool) -> Option<Vec<Slot>> {
     let s = &SIGS[si];
     if matches!(s.f, "set" | "define" | ":" | "@" | "now" | "|" | "?" | "default" | "cross") {
         return None;
@@ -336,7 +344,11 @@ pub fn slots(si: usize) -> Option<Vec<Slot>> {
         let optional = i >= s.args.len();
         let slot = match a {
             A::K(k) => {
-                let mut p = if (s.f == "range" && i == 0) || (s.f == "sub" && i == 2) { SIZE_WIDE.iter().map(|x| x.to_string()).collect() } else { pool(*k) };
+                let size_pos = (s.f == "range" && i == 0) || (s.f == "sub" && i == 2);
+                let mut p = if size_pos { SIZE_WIDE.iter().map(|x| x.to_string()).collect() } else { pool(*k) };
+                if wild && !size_pos && matches!(k, Int | Num) {
+                    p.extend(WILD_EXTRA.iter().map(|x| x.to_string()));
+                }
                 if optional {
                     p.push(String::new());
                 }
